@@ -1,6 +1,7 @@
 """C13 — AR(1) discretisations (rouwenhorst, tauchen) and chain estimation
 (estimate_mc, fit_discrete_mc): correspondence + spec run."""
 import collections
+import itertools
 import math
 import warnings
 from fractions import Fraction
@@ -78,6 +79,49 @@ def ar1_params(ctx, kind, k=0):
     return n, rho, sigma, mu
 
 
+def call_ar1(ctx, fn, name, n, rho, sigma, mu, nstd=None):
+    """call rouwenhorst / tauchen with the same values in a randomly chosen ARGUMENT FORM:
+    optional arguments omitted (when they equal the default) / positional / keyword; NumPy scalars"""
+    r = ctx.rng
+    sc = r.random() < 0.4
+    nn = r.choice([np.int64(n), np.int32(n) if r.random() < 0.2 else np.intp(n)]) if sc else n
+    f = (lambda v: np.float64(v)) if sc else (lambda v: v)
+    ctx.count("%s-form:%s" % (name, "numpy-scalars" if sc else "python-scalars"))
+    args, kw = [nn, f(rho), f(sigma)], {}
+    tail = []           # optional arguments still to be placed
+    if mu == 0.0 and r.random() < 0.6:
+        ctx.count("%s-form:mu-omitted" % name)
+        mu_given = False
+    else:
+        mu_given = True
+    ns_given = None
+    if nstd is not None:
+        if nstd == 3 and r.random() < 0.6:
+            ctx.count("%s-form:n_std-omitted" % name)
+            ns_given = False
+        else:
+            ns_given = True
+    nsv = (np.int64(nstd) if sc and r.random() < 0.5 else nstd) if ns_given else None
+    style = r.choice(["positional", "keyword", "mixed"])
+    ctx.count("%s-form:%s" % (name, style))
+    if mu_given:
+        if style == "positional" or (style == "mixed" and (ns_given or nstd is None)):
+            args.append(f(mu))
+        else:
+            kw["mu"] = f(mu)
+    if ns_given:
+        if style == "positional" and mu_given:
+            args.append(nsv)
+        else:
+            kw["n_std"] = nsv
+    if style == "keyword" and r.random() < 0.5:        # everything by keyword
+        kw.update(n=args[0], rho=args[1], sigma=args[2])
+        if len(args) > 3:
+            kw["mu"] = args[3]
+        args = []
+    return fn(*args, **kw)
+
+
 # ----------------------------------------------------------------------------
 # rouwenhorst
 
@@ -146,7 +190,7 @@ def rouw_cases(ctx, cases):
         for k in range(cnt):
             n, rho, sigma, mu = ar1_params(ctx, kind, k)
             try:
-                mc = rouwenhorst(n, rho, sigma, mu)
+                mc = call_ar1(ctx, rouwenhorst, "rouw", n, rho, sigma, mu)
             except Exception as e:      # valid parameters: any exception is a violation, not a tool failure
                 ctx.spec_fail("rouwenhorst_raises", "%s: %s" % (type(e).__name__, e),
                               {"op": "rouwenhorst", "n": n, "rho": rho, "sigma": sigma, "mu": mu,
@@ -297,9 +341,9 @@ def tauchen_cases(ctx, cases):
     for kind, cnt in plan:
         for k in range(cnt):
             n, rho, sigma, mu = ar1_params(ctx, kind, k)
-            nstd = (1, 5, 3, 2, 4)[k % 5] if kind == "edge" else ctx.rng.randint(1, 5)
+            nstd = (1, 5, 3, 2, 4)[k % 5] if kind == "edge" else ctx.rng.choice([1, 2, 3, 3, 4, 5])
             try:
-                mc = tauchen(n, rho, sigma, mu, nstd)
+                mc = call_ar1(ctx, tauchen, "tauchen", n, rho, sigma, mu, nstd)
             except Exception as e:      # valid parameters: any exception is a violation, not a tool failure
                 ctx.spec_fail("tauchen_raises", "%s: %s" % (type(e).__name__, e),
                               {"op": "tauchen", "n": n, "rho": rho, "sigma": sigma, "mu": mu, "n_std": nstd,
@@ -427,6 +471,117 @@ def gen_sequence(ctx):
     return X, obs, kind
 
 
+INT_FORMS = ["int8", "int16", "int32", "int64", "uint8", "uint16", "uint32", "uint64"]
+CONTAINER_FORMS = ["asis", "asis", "list", "tuple", "F-order", "view-rows", "view-cols", "neg-stride"]
+
+
+def as_form(A, container, r):
+    """the same observations as array `A`, handed over in another argument form"""
+    if container == "list":
+        return A.tolist()
+    if container == "tuple":
+        def tup(v):
+            return tuple(tup(e) for e in v) if isinstance(v, list) else v
+        return tup(A.tolist())
+    if container == "F-order" and A.ndim >= 2:
+        return np.asfortranarray(A)
+    if container == "view-rows":
+        big = np.zeros((2 * A.shape[0] + 1,) + A.shape[1:], dtype=A.dtype)
+        big[1::2] = A
+        return big[1::2]
+    if container == "view-cols" and A.ndim >= 2:
+        big = np.zeros((A.shape[0], 2 * A.shape[1]) + A.shape[2:], dtype=A.dtype)
+        big[:, ::2] = A
+        return big[:, ::2]
+    if container == "neg-stride":
+        return A[::-1].copy()[::-1]
+    return A
+
+
+def int_pool(r, form, k):
+    """k distinct values of an integer dtype: extremes, more than half the dtype's span apart, clustered"""
+    info = np.iinfo(form)
+    lo, hi = int(info.min), int(info.max)
+    span = hi - lo
+    mode = r.choice(["wide", "half", "narrow", "extremes"])
+    if mode == "narrow":
+        c = r.choice([lo, hi - 40, 0 if lo < 0 else span // 2, r.randint(lo, hi - 40)])
+        cand = [c + j for j in range(0, 41)]
+    elif mode == "half":      # max - min strictly between span/2 and span
+        a = r.randint(lo, lo + span // 2 - 2)
+        b = r.randint(a + span // 2 + 1, min(hi, a + span - 1))
+        cand = [a, b] + [r.randint(a, b) for _ in range(12)] + [a + 1, b - 1]
+    elif mode == "extremes":
+        cand = [lo, hi, lo + 1, hi - 1, lo + span // 2, lo + span // 2 + 1, 0, 1] + ([-1, -100, 100] if lo < 0 else [100, 200])
+    else:
+        cand = [r.randint(lo, hi) for _ in range(14)] + [lo, hi, 0, -100 if lo < 0 else 3, 100]
+    cand = sorted(set(v for v in cand if lo <= v <= hi))
+    pool = r.sample(cand, min(k, len(cand)))
+    if mode in ("half", "extremes") and len(pool) >= 2:
+        pool[0], pool[1] = cand[0], cand[-1]           # make sure both ends occur
+    return pool, mode
+
+
+def gen_form_sequence(ctx):
+    """estimate_mc over ARGUMENT FORMS: (argument, base array, observations as Fractions, label)"""
+    r = ctx.rng
+    T = r.choice([2, 3, 4, 5, 8, 13, 30, 60, 120, 200]) if r.random() < 0.5 else r.randint(2, 40)
+    k = r.choice([1, 2, 3, 4, 6, 10]) if T > 3 else r.choice([1, 2, 3])
+    form = r.choice(INT_FORMS + INT_FORMS + ["bool", "float32", "float64", "float32", "float64", "pyint", "pyfloat",
+                                             "nd-int", "nd-float", "nd-int", "nd-float"])
+    label = form
+    if form in INT_FORMS:
+        pool, mode = int_pool(r, form, k)
+        label = "%s/%s" % (form, mode)
+        A = np.array([r.choice(pool) for _ in range(T)], dtype=form)
+    elif form == "bool":
+        A = np.array([r.random() < 0.5 for _ in range(T)], dtype=bool)
+    elif form in ("float32", "float64"):
+        ft = np.dtype(form).type
+        fi = np.finfo(form)
+        base = ft(r.choice([1.0, -2.5, 1e30, -1e-30, 3.0e38 if form == "float32" else 1.5e308, float(fi.tiny)]))
+        cand = [base, np.nextafter(base, ft(np.inf), dtype=ft), np.nextafter(base, ft(-np.inf), dtype=ft),
+                ft(0.0), ft(-0.0), ft(fi.max), ft(-fi.max), ft(fi.smallest_subnormal), ft(r.gauss(0, 1)), ft(r.uniform(-1e6, 1e6))]
+        pool = [cand[i] for i in r.sample(range(len(cand)), min(k, len(cand)))]
+        if r.random() < 0.3 and len(pool) >= 2:
+            pool[0], pool[1] = ft(0.0), ft(-0.0)
+        A = np.array([r.choice(pool) for _ in range(T)], dtype=form)
+    elif form == "pyint":
+        pool = r.sample([0, 1, -1, 2 ** 62, -2 ** 62, 2 ** 63 - 1, -2 ** 63, 7, 100, -100, 12345678901], k)
+        A = np.array([r.choice(pool) for _ in range(T)], dtype=np.int64)
+    elif form == "pyfloat":
+        pool = r.sample([0.0, 0.1, -0.1, 1e300, -1e300, 1e-300, 2.5, 0.30000000000000004, 0.3, 1.0], k)
+        A = np.array([r.choice(pool) for _ in range(T)], dtype=np.float64)
+    else:
+        dt = r.choice(["int8", "int16", "int64", "uint8", "uint64"] if form == "nd-int" else ["float32", "float64"])
+        shape = (r.randint(1, 3),) if r.random() < 0.6 else (2, 2)
+        if form == "nd-int":
+            info = np.iinfo(dt)
+            vals = [int(info.min), int(info.max), 0, 1, int(info.min) + 1, int(info.max) // 2 + 1]
+        else:
+            vals = [0.0, -0.0, 0.25, -1.5, float(np.finfo(dt).max), 1e-30]
+        pool = [np.array([r.choice(vals) for _ in range(int(np.prod(shape)))], dtype=dt).reshape(shape) for _ in range(k)]
+        A = np.array([pool[r.randrange(len(pool))] for _ in range(T)], dtype=dt)
+        label = "%s/%s/%dd" % (form, dt, A.ndim)
+    flat = A.reshape(len(A), -1)
+    seen = any(np.array_equal(flat[-1], flat[t]) for t in range(len(A) - 1))
+    if not seen and r.random() < 0.9:
+        A = A.copy()
+        A[-1] = A[r.randrange(len(A) - 1)]
+    if form in ("pyint", "pyfloat"):
+        container = r.choice(["list", "tuple"])
+    else:
+        container = r.choice(CONTAINER_FORMS)
+    if container in ("list", "tuple") and A.dtype == np.uint64 and int(A.max()) >= 2 ** 63:
+        # np.asarray turns Python ints beyond int64 into float64 (lossy) before the library sees them:
+        # not an argument form with exact values, keep the ndarray
+        container = "asis"
+    arg = as_form(A, container, r)
+    flat = A.reshape(len(A), -1)
+    obs = [tuple(Fraction(v.item()) for v in row) for row in flat]
+    return arg, A, obs, label, container
+
+
 def p_string(P):
     return fxm(P)
 
@@ -438,18 +593,26 @@ def model_P_bits(s):
 
 def estimate_cases(ctx, cases):
     from quantecon.markov.estimate import estimate_mc, _count_transition_frequencies
-    for _ in range(ctx.n(400, 5000)):
-        X, obs, kind = gen_sequence(ctx)
+    n_plain, n_forms = ctx.n(300, 3000), ctx.n(500, 5000)
+    for it in range(n_plain + n_forms):
+        if it < n_plain:
+            X, obs, kind = gen_sequence(ctx)
+            arg = X
+            rp = {"op": "estimate_mc", "X": X.tolist()}
+        else:
+            arg, X, obs, kind, container = gen_form_sequence(ctx)
+            ctx.count("estimate-form:container=" + container)
+            kind = "form:" + kind
+            rp = {"op": "estimate_mc", "X": X.tolist(), "dtype": str(X.dtype), "container": container}
         states, C, tot = brute_estimate(obs)
         n = len(states)
         ctx.count("estimate:" + kind)
         ctx.count("estimate:len>=100" if len(obs) >= 100 else "estimate:len<100")
-        rp = {"op": "estimate_mc", "X": X.tolist()}
         valid = all(t > 0 for t in tot)
         try:
             with warnings.catch_warnings():
                 warnings.simplefilter("ignore")
-                mc = estimate_mc(X)
+                mc = estimate_mc(arg)
             P = np.asarray(mc.P)
             sv = np.asarray(mc.state_values)
             svq = [tuple(Fraction(v.item()) for v in row) for row in sv.reshape(len(sv), -1)]
@@ -495,16 +658,64 @@ def estimate_cases(ctx, cases):
         cases.append(Case("C13 estimate X=%s" % ratm(obs), impl_full, nontrivial=(n >= 2), cmp=cmp_e, tag="estimate"))
 
 
+FIT_COMBOS = [
+    (False, "float64", "asis", ["float64"], "asis", "tuple", None),
+    (False, "float64", "asis", ["float64"], "asis", "tuple", None),
+    (False, "float64", "list", ["pylist"], "asis", "list", None),
+    (False, "float64", "tuple", ["float64", "pylist"], "asis", "tuple", None),
+    (False, "float32", "asis", ["float64"], "asis", "tuple", 2),
+    (False, "float64", "F-order", ["float32"], "asis", "list", 2),
+    (False, "float64", "view-cols", ["float64"], "view-rows", "tuple", 3),
+    (False, "float32", "neg-stride", ["float32", "float64"], "neg-stride", "tuple", 1),
+    (True, "int64", "asis", ["int64", "pylist"], "asis", "tuple", None),
+    (True, "int8", "asis", ["int8"], "asis", "tuple", 2),
+    (True, "int16", "view-rows", ["float64"], "asis", "list", 1),
+    (True, "int32", "F-order", ["int16", "float32"], "asis", "tuple", 2),
+    (True, "uint8", "asis", ["int64"], "asis", "tuple", 1),
+    (True, "uint64", "list", ["pylist"], "asis", "tuple", 2),
+    (True, "float64", "asis", ["int8"], "view-rows", "tuple", 2),   # one dtype: a cast would copy to a contiguous array
+]
+
+
+def fit_layout_probe(ctx):
+    """grids given as a strided view next to a contiguous array (a legal array_like form)"""
+    from quantecon.markov.estimate import fit_discrete_mc
+    X = [(0.1, 0.9), (1.9, 0.1), (0.1, 0.9)]
+    grids = (np.arange(6.)[::2], np.array([0., 1.]))
+    try:
+        with warnings.catch_warnings():
+            warnings.simplefilter("ignore")
+            mc = fit_discrete_mc(X, grids)
+        ok = np.asarray(mc.P).tolist() == [[0.0, 1.0], [1.0, 0.0]] and np.asarray(mc.state_values).tolist() == [[0.0, 1.0], [2.0, 0.0]]
+        what = None if ok else "wrong result for mixed-layout grids"
+    except Exception as e:
+        what = "%s raised for grids=(np.arange(6.)[::2], np.array([0.,1.])): %s" % (type(e).__name__, str(e).splitlines()[0][:120])
+    if what is None:
+        ctx.count("fit:mixed-layout-grids-ok")
+    elif "fit_mixed_layout_grids" in ctx.known:
+        ctx.spec_fail("fit_mixed_layout_grids", what, {"op": "fit_discrete_mc", "X": X, "grids": "(np.arange(6.)[::2], np.array([0.,1.]))"})
+    else:   # observed on the unchanged tree; reported, not alarmed until listed in known_findings.txt
+        ctx.count("observed:fit_mixed_layout_grids")
+        ctx.notes.append("fit_mixed_layout_grids: " + what)
+
+
 def fit_cases(ctx, cases):
     from quantecon.markov.estimate import fit_discrete_mc
     from quantecon import _gridtools as gt
     r = ctx.rng
     for _ in range(ctx.n(300, 3000)):
-        d = r.randint(1, 3)
+        # argument-form combos: (integer-valued?, X dtype, X container, grid dtypes, grid layout, grids container, fixed d)
+        # every distinct (dtype, layout, d) signature costs one Numba compilation, hence the fixed d in the quick tier
+        combo = r.choice(FIT_COMBOS)
+        intmode, xdt, xcont, gdt_choices, glayout, gcont, dfix = combo
+        d = r.randint(1, 3) if (dfix is None or ctx.thorough) else dfix
         grids = []
         for _i in range(d):
             ln = r.randint(1, 4)
-            grids.append([Fraction(v, 4) for v in sorted(r.sample(range(-12, 13), ln))])
+            if intmode:
+                grids.append([Fraction(v) for v in sorted(r.sample(range(-100, 101), ln))])
+            else:
+                grids.append([Fraction(v, 4) for v in sorted(r.sample(range(-12, 13), ln))])
         T = r.choice([2, 3, 5, 9, 20, 50, 120, 200]) if r.random() < 0.4 else r.randint(2, 25)
         X = []
         for _t in range(T):
@@ -513,29 +724,62 @@ def fit_cases(ctx, cases):
                 kind = r.randrange(6)
                 if kind == 0:
                     row.append(r.choice(g)); ctx.count("fit:on-grid")
-                elif kind == 1 and len(g) >= 2:
-                    i = r.randrange(len(g) - 1)
+                elif kind == 1 and len(g) >= 2 and (not intmode or any((g[i + 1] - g[i]) % 2 == 0 for i in range(len(g) - 1))):
+                    i = r.choice([i for i in range(len(g) - 1) if not intmode or (g[i + 1] - g[i]) % 2 == 0])
                     row.append((g[i] + g[i + 1]) / 2); ctx.count("fit:midpoint-tie")
                 elif kind == 2:
-                    row.append(g[0] - Fraction(r.randint(0, 8), 8)); ctx.count("fit:below")
+                    row.append(g[0] - (r.randint(0, 20) if intmode else Fraction(r.randint(0, 8), 8))); ctx.count("fit:below")
                 elif kind == 3:
-                    row.append(g[-1] + Fraction(r.randint(0, 8), 8)); ctx.count("fit:above")
+                    row.append(g[-1] + (r.randint(0, 20) if intmode else Fraction(r.randint(0, 8), 8))); ctx.count("fit:above")
                 else:
-                    row.append(Fraction(r.randint(-120, 120), 32)); ctx.count("fit:generic")
+                    row.append(Fraction(r.randint(-120, 120)) if intmode else Fraction(r.randint(-120, 120), 32)); ctx.count("fit:generic")
             X.append(row)
         if r.random() < 0.85:           # make the last observation revisit an earlier cell
             X[-1] = list(X[r.randrange(T - 1)])
         order = r.choice("CF")
         ctx.count("fit:order=" + order)
-        tg = tuple(np.array([float(v) for v in g]) for g in grids)
-        Xa = np.array([[float(v) for v in row] for row in X])
+        # ---- argument forms (all values are exactly representable in every dtype used) ----
+        if xdt == "int8" and any(not -128 <= v <= 127 for row in X for v in row):
+            xdt = "int16"
+        if xdt.startswith("uint") and any(v < 0 for row in X for v in row):
+            xdt = "int64"
+        gdts = [r.choice(gdt_choices) for _ in grids]
+        if glayout != "asis" and (any(len(g) < 2 for g in grids) or "pylist" in gdts):
+            glayout = "asis"        # a 1-point view is contiguous: the layouts would be mixed (fit_mixed_layout_grids)
+        if glayout != "asis":
+            gdts = [gdts[0]] * len(gdts)    # the cast to a common dtype copies (contiguous): mixed layouts again
+        if intmode and not xdt.startswith("float"):
+            Xbase = np.array([[int(v) for v in row] for row in X], dtype=xdt)
+        else:
+            Xbase = np.array([[float(v) for v in row] for row in X], dtype=xdt)
+        Xa = as_form(Xbase, xcont, r)
+        tgl = []
+        for g, gd in zip(grids, gdts):
+            if gd == "pylist":
+                tgl.append([int(v) if intmode else float(v) for v in g])
+            else:
+                ga = np.array([int(v) if (intmode and not gd.startswith("float")) else float(v) for v in g], dtype=gd)
+                tgl.append(as_form(ga, glayout, r))     # one layout for all grids (see fit_mixed_layout_grids)
+        tg = tuple(tgl) if gcont == "tuple" else tgl
+        form = "X:%s/%s grids:%s/%s/%s" % (xdt, xcont, "+".join(sorted(set(gdts))), glayout, gcont)
+        ctx.count("fit-form:X=" + xdt)
+        ctx.count("fit-form:Xcontainer=" + xcont)
+        for gd in gdts:
+            ctx.count("fit-form:grid=" + gd)
+        ctx.count("fit-form:grids=%s/%s" % (glayout, gcont))
         rp = {"op": "fit_discrete_mc", "X": [[str(v) for v in row] for row in X],
-              "grids": [[str(v) for v in g] for g in grids], "order": order}
+              "grids": [[str(v) for v in g] for g in grids], "order": order, "form": form}
         # exact oracle: nearest product index per observation (ties: any nearest point is acceptable,
         # the code's own choice is then used for the counts)
-        prod = gt.cartesian(list(tg), order=order)
-        prodq = [[Fraction(float(v)) for v in row] for row in prod]
-        idx_code = [int(k) for k in np.atleast_1d(gt.cartesian_nearest_index(Xa, tg, order=order))]
+        if order == "C":
+            prodq = [list(t) for t in itertools.product(*grids)]
+        else:
+            prodq = [list(reversed(t)) for t in itertools.product(*reversed(grids))]
+        try:
+            idx_code = [int(k) for k in np.atleast_1d(gt.cartesian_nearest_index(Xa, tg, order=order))]
+        except Exception as e:          # a legal argument form that the library rejects
+            ctx.spec_fail("fit_nearest_raises", "cartesian_nearest_index: %s: %s" % (type(e).__name__, str(e)[:200]), rp)
+            continue
         ok = True
         for t in range(T):
             d2 = [sum((p - xi) ** 2 for p, xi in zip(row, X[t])) for row in prodq]
@@ -607,6 +851,7 @@ def run(ctx):
     rouw_cases(ctx, cases)
     tauchen_cases(ctx, cases)
     estimate_cases(ctx, cases)
+    fit_layout_probe(ctx)
     fit_cases(ctx, cases)
     ctx.run_cases(cases)
 
@@ -648,7 +893,7 @@ def replay(data):
             c.fails.append((op + "_raises", "%s: %s" % (type(e).__name__, e)))
     elif op == "estimate_mc":
         from quantecon.markov.estimate import estimate_mc
-        X = np.array(rp["X"])
+        X = np.array(rp["X"], dtype=rp.get("dtype"))
         obs = [tuple(Fraction(v.item()) for v in row) for row in X.reshape(len(X), -1)]
         states, C, tot = brute_estimate(obs)
         print("expected states =", [[float(v) for v in s] for s in states])
